@@ -39,6 +39,7 @@ type c09Gate struct {
 	putArmed              bool
 	putArrive, putGo      chan struct{}
 	putWritten, putGoExit chan struct{}
+	settle                func() error
 }
 
 func (g *c09Gate) Seek(rng storage.SeekRange, f func(k, v []byte) bool) {
@@ -55,6 +56,9 @@ func (g *c09Gate) PutChangeSet(p, s map[string][]byte) error {
 		<-g.putGo
 	}
 	err := g.Store.PutChangeSet(p, s)
+	if err == nil && g.settle != nil {
+		err = g.settle() // LevelDB: wait out the background compaction (deterministic state), see c09Stack.settle
+	}
 	if g.putArmed {
 		g.putWritten <- struct{}{}
 		<-g.putGoExit
@@ -157,6 +161,7 @@ func c09RunSched(co *caseOut, in c09SInput, dir string, seq int) error {
 		seekArrive: make(chan struct{}), seekGo: make(chan struct{}),
 		putArrive: make(chan struct{}), putGo: make(chan struct{}),
 		putWritten: make(chan struct{}), putGoExit: make(chan struct{})}
+	g.settle = base0.settle
 	L := storage.NewMemCachedStore(g)
 	prefix, start := unhx(in.Q.Prefix), unhx(in.Q.Start)
 	rng := storage.SeekRange{Prefix: prefix, Start: start, Backwards: in.Q.Bw}
